@@ -30,7 +30,7 @@ from .helpers import (
     should_remove_content_length,
     validate_etag_value,
 )
-from .http import SERVER_SOFTWARE, HttpVersion10, HttpVersion11
+from .http import SERVER_SOFTWARE, HttpVersion10, HttpVersion11, StreamWriter
 from .payload import Payload
 from .typedefs import JSONBytesEncoder, JSONEncoder, LooseHeaders
 
@@ -364,7 +364,22 @@ class StreamResponse(
 
     async def _start(self, request: "BaseRequest") -> AbstractStreamWriter:
         self._req = request
-        writer = self._payload_writer = request._payload_writer
+        writer = request._payload_writer
+        if (
+            isinstance(writer, StreamWriter)
+            and writer.output_size == 0
+            and (
+                writer.chunked
+                or writer.length is not None
+                or writer._compress is not None
+            )
+        ):
+            # A response that was prepared but never sent has left its framing
+            # (chunking, compression, length) on the writer.
+            writer = request._payload_writer = StreamWriter(
+                writer.protocol, writer.loop
+            )
+        self._payload_writer = writer
 
         await self._prepare_headers()
         await request._prepare_hook(self)
